@@ -1,0 +1,11 @@
+//go:build verif
+
+package index
+
+// VerifSetSequenceSync replaces the function that syncs the mmap'ed sequence file (only compiled with
+// -tags verif) so that a harness observes the store; it returns the previous function.
+func VerifSetSequenceSync(fn func(buf []byte) error) func(buf []byte) error {
+	old := syncFn
+	syncFn = fn
+	return old
+}
